@@ -8,6 +8,7 @@ pub mod c06;
 pub mod c07;
 pub mod c08;
 pub mod c09;
+pub mod c10;
 #[cfg(feature = "crypto")]
 pub mod c11;
 pub mod c12;
@@ -32,6 +33,7 @@ pub fn lookup(id: &str) -> Option<PropertyDef> {
 		"C07" => c07::def(),
 		"C08" => c08::def(),
 		"C09" => c09::def(),
+		"C10" => c10::def(),
 		#[cfg(feature = "crypto")]
 		"C11" => c11::def(),
 		"C12" => c12::def(),
@@ -46,4 +48,4 @@ pub fn lookup(id: &str) -> Option<PropertyDef> {
 	})
 }
 
-pub const ALL: &[&str] = &["C01", "C02", "C03", "C04", "C05", "C06", "C07", "C08", "C09", "C11", "C12", "C13", "C14", "C15", "C17", "C19", "C20"];
+pub const ALL: &[&str] = &["C01", "C02", "C03", "C04", "C05", "C06", "C07", "C08", "C09", "C10", "C11", "C12", "C13", "C14", "C15", "C17", "C19", "C20"];
